@@ -238,7 +238,15 @@ def judge_cone_result(c, ctx, pr, sol, opts, prefix, qp=False, external=None, ch
             gap = R["gap"]
             gtol = ROUND * R["gap_scale"]
             okgap = gap <= max(abstol, ext_tol) + gtol
-            for cd in relgap_candidates(R["pcost"], R["dcost"], gap):
+            cands = list(relgap_candidates(R["pcost"], R["dcost"], gap))
+            # the documented case distinction looks at the SIGNS of the objectives; for objectives below the rounding level of
+            # their own recomputation (optimal value 0: |pcost|, |dcost| ~ 1e-50) the recomputed signs are noise, so the
+            # reported objectives - which the field checks above tie to the recomputed ones - decide as well
+            rp_, rd_ = sol.get("primal objective"), sol.get("dual objective")
+            if isinstance(rp_, float) and isinstance(rd_, float) and \
+                    abs(rp_ - R["pcost"]) <= ROUND * max(R["pcost_scale"], 1e-300) and abs(rd_ - R["dcost"]) <= ROUND * max(R["dcost_scale"], 1e-300):
+                cands += list(relgap_candidates(rp_, rd_, gap))
+            for cd in cands:
                 if cd is not None and cd <= max(reltol, ext_tol) * (1 + 1e-6) + gtol / max(abs(R["pcost"]), abs(R["dcost"]), 1e-300):
                     okgap = True
             if qp and not okgap:
